@@ -27,7 +27,7 @@ var c01Plan = []planEntry{
 func init() {
 	register(&Check{
 		ID:   "C01",
-		Rule: "every token sequence up to the stated length over each declared alphabet, and every member of the parametric families t^k / t1^k t2^k, is parsed through Parse (caller's buffer with sentinel-filled spare capacity) and through NewBlockParser+NextBlock (one full read; for inputs up to 64 bytes also one byte per read; for inputs up to 24 bytes also every single-cut read schedule); non-trivial = >=2 root blocks, or a NUL / CR in the input, or leading blank lines",
+		Rule: "every token sequence up to the stated length over each declared alphabet, and every member of the parametric families t^k / t1^k t2^k, is parsed through Parse (caller's buffer with sentinel-filled spare capacity) and through NewBlockParser+NextBlock (one full read; for inputs up to 64 bytes also one byte per read and all data together with io.EOF; for inputs up to 24 bytes also every single-cut read schedule); non-trivial = >=2 root blocks, or a NUL / CR in the input, or leading blank lines",
 		Assumptions: []string{
 			"line numbering reference: a line ending is LF, CRLF or a CR not followed by LF (written from the statement, not from lineCount)",
 			"equality of streaming and in-memory results under arbitrary read schedules and reader faults is C08's subject; here the tiling statement itself is checked on each streamed result",
@@ -107,12 +107,18 @@ func c01Driver(x *X, in []byte) {
 	// root blocks "returned by parsing"; it has to hold however the reader
 	// happens to deliver the bytes. (Equality with Parse is C08's subject.)
 	c01Stream(x, in, nil, "stream")
+	if len(in) >= 1 && len(in) <= 64 {
+		// The last bytes arrive together with io.EOF (io.Reader allows it).
+		c01Stream(x, in, []int{-1}, "stream/data-with-EOF")
+		x.Count("streamed_data_with_eof")
+	}
 	if len(in) >= 2 && len(in) <= 64 {
 		c01Stream(x, in, []int{1}, "stream/1-byte-reads")
 		x.Count("streamed_one_byte_reads")
 		if len(in) <= 24 {
 			for cut := 1; cut < len(in); cut++ {
 				c01Stream(x, in, []int{cut, len(in)}, "stream/cut")
+				c01Stream(x, in, []int{cut, -1}, "stream/cut,data-with-EOF")
 				x.Count("streamed_single_cut_schedules")
 			}
 		}
@@ -149,7 +155,8 @@ func c01Driver(x *X, in []byte) {
 }
 
 // chunkReader delivers its data in reads of the given sizes (the last size
-// repeats), never more than the caller's buffer holds.
+// repeats), never more than the caller's buffer holds. Size -1 means: all the
+// rest, together with io.EOF in the same call.
 type chunkReader struct {
 	data  []byte
 	sizes []int
@@ -161,13 +168,20 @@ func (r *chunkReader) Read(p []byte) (int, error) {
 		return 0, io.EOF
 	}
 	n := len(r.data)
+	withEOF := false
 	if len(r.sizes) > 0 {
 		n = r.sizes[min(r.k, len(r.sizes)-1)]
 		r.k++
+		if n < 0 {
+			n, withEOF = len(r.data), true
+		}
 	}
 	n = min(n, len(r.data), len(p))
 	copy(p, r.data[:n])
 	r.data = r.data[n:]
+	if withEOF && len(r.data) == 0 {
+		return n, io.EOF
+	}
 	return n, nil
 }
 
